@@ -4,6 +4,7 @@ wider than a cell, whitespace splitting of adjacent right-aligned cells.
 -/
 import Midgard.Model.Writers
 import Midgard.Proofs.FixedCol
+import Midgard.Proofs.Decimal
 
 namespace Midgard.Writers
 open Midgard.Text Midgard.FixedCol Midgard.WriterCells
@@ -179,3 +180,139 @@ theorem split_rjust_cells (parts : List (Nat × Str))
   exact split_cells_aux parts h
 
 end Midgard.Writers
+
+/-! ### how wide a fixed-point number prints (`fmtFixed_width`) -/
+
+namespace Midgard.Decimal
+open Midgard.Text
+
+theorem natDigits_length_le : ∀ (k n : Nat), 0 < k → n < 10 ^ k → (natDigits n).length ≤ k := by
+  intro k
+  induction k with
+  | zero => intro n h; omega
+  | succ k ih =>
+    intro n _ h
+    unfold natDigits
+    by_cases h10 : n < 10
+    · simp [h10]
+    · simp only [h10, if_false, List.length_append, List.length_singleton]
+      have hk : 0 < k := by
+        rcases Nat.eq_zero_or_pos k with h0 | h0
+        · subst h0; simp at h; omega
+        · exact h0
+      have : n / 10 < 10 ^ k := by
+        rw [Nat.div_lt_iff_lt_mul (by decide)]
+        rw [Nat.pow_succ] at h; exact h
+      have := ih (n / 10) hk this
+      omega
+
+theorem natDigits_length_pos (n : Nat) : 0 < (natDigits n).length := by
+  unfold natDigits
+  by_cases h10 : n < 10 <;> simp [h10]
+
+theorem length_fracDigits (p n : Nat) (hp : 0 < p) (h : n < 10 ^ p) : (fracDigits p n).length = p := by
+  unfold fracDigits
+  have := natDigits_length_le p n hp h
+  simp; omega
+
+theorem length_fmtFixedCore_le (q : Rat) (p k : Nat) (hp : 0 < p) (hk : 0 < k)
+    (hn : (roundHalfEven ((if q < 0 then -q else q) * pow10 p)).toNat < 10 ^ (k + p)) :
+    (fmtFixedCore q p).length ≤ (if q < 0 then 1 else 0) + k + 1 + p := by
+  unfold fmtFixedCore
+  simp only []
+  generalize (roundHalfEven ((if q < 0 then -q else q) * pow10 p)).toNat = n at hn ⊢
+  have hip : n / 10 ^ p < 10 ^ k := by
+    rw [Nat.div_lt_iff_lt_mul (Nat.pow_pos (by decide))]
+    rw [Nat.pow_add] at hn; exact hn
+  have h1 := natDigits_length_le k (n / 10 ^ p) hk hip
+  have h2 := length_fracDigits p (n % 10 ^ p) hp (Nat.mod_lt _ (Nat.pow_pos (by decide)))
+  have hp0 : p ≠ 0 := by omega
+  by_cases hq : q < 0 <;> simp [hq, hp0, h2] <;> omega
+
+end Midgard.Decimal
+
+namespace Midgard.Decimal
+
+theorem roundHalfEven_le_of_le_int (a : Rat) (M : Int) (h : a ≤ (M : Rat)) : roundHalfEven a ≤ M := by
+  unfold roundHalfEven
+  simp only []
+  have hf : a.floor ≤ M := by
+    have h1 : ((a.floor : Int) : Rat) ≤ a := Rat.floor_le a
+    have h2 : ((a.floor : Int) : Rat) ≤ (M : Rat) := Rat.le_trans h1 h
+    exact_mod_cast h2
+  by_cases hlt : a.floor < M
+  · split
+    · omega
+    · split <;> (try split) <;> omega
+  · have heq : a.floor = M := by omega
+    have hz : a - (a.floor : Rat) = 0 := by
+      have h1 : ((a.floor : Int) : Rat) ≤ a := Rat.floor_le a
+      rw [heq] at h1 ⊢
+      have : a = (M : Rat) := Rat.le_antisymm h h1
+      rw [this]; grind
+    have hpos : (0 : Rat) < 1 / 2 := by decide +kernel
+    rw [heq] at hz
+    rw [heq, hz]
+    simp [hpos]
+
+theorem roundHalfEven_nonneg (a : Rat) (h : 0 ≤ a) : 0 ≤ roundHalfEven a := by
+  unfold roundHalfEven
+  simp only []
+  have hf : 0 ≤ a.floor := by
+    have h1 : a < ((a.floor + 1 : Int) : Rat) := Rat.lt_floor_add_one a
+    have h2 : (0 : Rat) < ((a.floor + 1 : Int) : Rat) := by grind
+    have h3 : (0 : Int) < a.floor + 1 := by exact_mod_cast h2
+    omega
+  split
+  · exact hf
+  · split <;> (try split) <;> omega
+
+end Midgard.Decimal
+
+namespace Midgard.Decimal
+
+/-- **fmtFixed_width.**  A value whose magnitude, scaled to the printed precision, does not exceed
+`10^(k+p) − 1` prints with at most `k` integer digits: sign + k + point + p characters. -/
+theorem fmtFixedCore_fits (q : Rat) (p k : Nat) (hp : 0 < p) (hk : 0 < k)
+    (h : (if q < 0 then -q else q) * pow10 p ≤ ((10 ^ (k + p) - 1 : Nat) : Rat)) :
+    (fmtFixedCore q p).length ≤ (if q < 0 then 1 else 0) + k + 1 + p := by
+  apply length_fmtFixedCore_le q p k hp hk
+  have hcast : (((10 ^ (k + p) - 1 : Nat) : Int) : Rat) = ((10 ^ (k + p) - 1 : Nat) : Rat) := by
+    simp [Rat.intCast_natCast]
+  have hM := roundHalfEven_le_of_le_int _ ((10 ^ (k + p) - 1 : Nat) : Int) (by rw [hcast]; exact h)
+  have hpos : 0 < 10 ^ (k + p) := Nat.pow_pos (by decide)
+  omega
+
+end Midgard.Decimal
+
+namespace Midgard.Decimal
+open Midgard.WriterCells
+
+theorem pow10_4 : pow10 4 = 10000 := by decide +kernel
+theorem pow10_5 : pow10 5 = 100000 := by decide +kernel
+
+theorem coord_abs_bound (q : Rat) (hlo : -(99999999999 / 10000 : Rat) ≤ q) (hhi : q ≤ 99999999999 / 10000) :
+    (if q < 0 then -q else q) ≤ 99999999999 / 10000 := by
+  split <;> grind
+
+theorem coordinate_fits (q : Rat) (hlo : -(99999999999 / 10000 : Rat) ≤ q) (hhi : q ≤ 99999999999 / 10000) :
+    fitsCellStrict ⟨none, 14, some 4, .fix⟩ (.num q) = true ∧
+    fitsCell ⟨none, 14, some 5, .fix⟩ (.num q) = true ∧
+    fitsCell ⟨none, 16, some 5, .fix⟩ (.num q) = true := by
+  have ha := coord_abs_bound q hlo hhi
+  have h4 : (if q < 0 then -q else q) * pow10 4 ≤ ((10 ^ (7 + 4) - 1 : Nat) : Rat) := by
+    rw [pow10_4]
+    have : ((10 ^ (7 + 4) - 1 : Nat) : Rat) = 99999999999 := by decide +kernel
+    rw [this]; grind
+  have h5 : (if q < 0 then -q else q) * pow10 5 ≤ ((10 ^ (7 + 5) - 1 : Nat) : Rat) := by
+    rw [pow10_5]
+    have : ((10 ^ (7 + 5) - 1 : Nat) : Rat) = 999999999999 := by decide +kernel
+    rw [this]; grind
+  have l4 := fmtFixedCore_fits q 4 7 (by decide) (by decide) h4
+  have l5 := fmtFixedCore_fits q 5 7 (by decide) (by decide) h5
+  have s : (if q < 0 then 1 else 0) ≤ 1 := by split <;> omega
+  unfold fitsCellStrict fitsCell
+  refine ⟨decide_eq_true ?_, decide_eq_true ?_, decide_eq_true ?_⟩ <;>
+    simp only [Value.text, Option.getD_some] <;> omega
+
+end Midgard.Decimal
